@@ -2,7 +2,7 @@
 //! and `--replay` run exactly the same code.
 use crate::cases::{AlphaLike, Case, Env, Prim, LN};
 use crate::fmt::{documented_panic, roundtrip, try_de, try_ser, wire_of_toks, Fmt, Got, Wire, ALL_FMTS, MAP_FMTS};
-use crate::tok::{build_struct, show, strip_hue_newtypes, struct_entries, to_toks, Tok};
+use crate::tok::{build_top, show, strip_hue_newtypes, to_toks, top_entries, Tok};
 use crate::{Cfg, Stats};
 use pv::{json, Collector, Tier, Value};
 use serde::de::DeserializeOwned;
@@ -56,7 +56,7 @@ pub fn describe_bounds(c: &mut Collector, cfg: &Cfg) {
     let lat = format!("component lattice of 21 points per scalar type (0, 1, 0.1, 0.25, 0.5, 0.75, -0, -1.5, 1/3, 255, 1e-30, 1e10, MAX, MIN, MIN_POSITIVE, min subnormal, 360, +inf, -inf, NaN, NaN with payload; 21 integers for u8/u16): base vector of distinct values, every point in all positions at once, every point in every single position{prod}");
     c.exhaustive("roundtrip", true, &format!("every serializable palette type (25 colour structs x f32,f64; u8/u16 Rgb and Luma; 5 hue types x f32,f64 + RgbHue<u8>; Alpha<.> of all of them, mixed alpha types, PreAlpha<.> of the 10 premultipliable ones) and 24 mock shapes wrapped in Alpha x {lat} x 11 format variants (json, json-array, ron, ron-named, tok-map with str/borrowed/String/bytes/index keys, tok-seq, tok-fixed)"));
     c.exhaustive("shape", true, &format!("same types x {lat} x human-readable flag: recorded serde data-model calls == predicted token stream"));
-    c.exhaustive("perm", true, "every struct-shaped Alpha/PreAlpha type x 2 value vectors (thorough: 6) x all orders of the fields incl. alpha (all n! for n<=5 entries, rotations and reversed rotations beyond) x {as is, alpha removed, second alpha inserted at every position, unknown scalar / unknown nested struct entry inserted at every position} x 7 map formats x {plain Deserialize, optional-alpha helper}");
+    c.exhaustive("perm", true, "every Alpha/PreAlpha type whose colour has named fields (structs, and the map a flattened struct produces) x 2 value vectors (thorough: 6) x all orders of the fields incl. alpha (all n! for n<=5 entries, rotations and reversed rotations beyond) x {as is, alpha removed, second alpha inserted at every position, unknown scalar / unknown nested struct entry inserted at every position} x 7 map formats x {plain Deserialize, optional-alpha helper}");
     c.exhaustive("missing-alpha", true, &format!("every Alpha/PreAlpha type x {lat} (quick: 43 vectors) x 11 formats: the colour serialized alone, read back as the transparent type and through the optional-alpha helper"));
     c.exhaustive("opt-present", true, "every Alpha/PreAlpha type x value vectors x 11 formats: the transparent colour read back through the optional-alpha helper");
     c.exhaustive("as_array", true, &format!("as_array on the colour, Alpha<colour> and PreAlpha<colour> for all 22 f32 colour structs, 5 f64 ones and the u8/u16 Rgb/Luma x {lat} x 11 formats"));
@@ -100,7 +100,7 @@ pub fn check_rt<T: Case>(c: &mut Collector, env: &mut Env, st: &mut Stats, seed:
         Got::Value(y) => {
             let yb = y.bits();
             if !control {
-                st.bump(&format!("roundtrip/skipped: format cannot carry a part of the value/{}", f.class()));
+                st.bump(&format!("roundtrip/skipped: format cannot carry a part of the value/{}", f.name()));
             } else if yb == xb {
                 compared = true;
                 st.bump("roundtrip/equal");
@@ -118,7 +118,7 @@ pub fn check_rt<T: Case>(c: &mut Collector, env: &mut Env, st: &mut Stats, seed:
                 compared = true;
                 c.violation(&sig("undocumented-panic"), 1.0, || case(json!({"panic": e}), "a value, an error or the documented unimplemented! panic"));
             } else if !control {
-                st.bump(&format!("roundtrip/skipped: format cannot carry a part of the value/{}", f.class()));
+                st.bump(&format!("roundtrip/skipped: format cannot carry a part of the value/{}", f.name()));
             } else if limitation {
                 compared = true;
                 st.bump("roundtrip/documented limitation: struct-shaped colour under Alpha in a fixed-length positional format -> error");
@@ -259,7 +259,7 @@ fn unknown_struct_toks() -> Vec<Tok> {
 pub fn check_perm<W: AlphaLike>(c: &mut Collector, env: &mut Env, st: &mut Stats, seed: u64, ix: &[usize], labels: &[String], f: Fmt, opt: bool) -> bool {
     let x = W::build(ix);
     let Ok(Ok(toks)) = pv::catch(|| to_toks(&x, true)) else { return false };
-    let Some((name, _, entries)) = struct_entries(&toks) else { return false };
+    let Some((top, entries)) = top_entries(&toks) else { return false };
     let alt = <W::Al as Prim>::lat(if ix[W::N - 1] == 1 { 4 } else { 1 });
     let alpha_idx = entries.iter().find(|e| e.0 == "alpha").map(|e| e.1).unwrap_or(0);
     let mut list: Vec<(&'static str, u32, Vec<Tok>)> = vec![];
@@ -286,7 +286,7 @@ pub fn check_perm<W: AlphaLike>(c: &mut Collector, env: &mut Env, st: &mut Stats
     } else {
         "reordered"
     };
-    let mutated = build_struct(name, &list);
+    let mutated = build_top(top, &list);
     let Ok(wire) = wire_of_toks(f, &mutated) else {
         st.bump("perm/skipped: format cannot render the input");
         return false;
@@ -471,29 +471,34 @@ pub fn run_alpha<W: AlphaLike>(cfg: &Cfg, c: &mut Collector, st: &mut Stats) {
     let vals = values(W::N, cfg.tier);
     // data without alpha, helper on data with alpha
     let few: Vec<&Vec<usize>> = if cfg.tier == Tier::Thorough { vals.iter().collect() } else { vals.iter().take(1 + 2 * LN).collect() };
-    let (mut m, mut p) = (0u64, 0u64);
+    let (mut m, mut p, mut p_ops) = (0u64, 0u64, 0u64);
     for ix in &few {
         for f in ALL_FMTS {
             m += check_missing::<W>(c, &mut env, st, ix, f, false) as u64;
             // the optional-alpha helper has a stated behaviour only for colour-like types
             if W::STRICT {
                 m += check_missing::<W>(c, &mut env, st, ix, f, true) as u64;
+                let before = env.ops;
                 p += check_opt_present::<W>(c, &mut env, st, ix, f) as u64;
+                p_ops += env.ops - before;
             }
         }
     }
-    c.add("missing-alpha", few.len() as u64, env.ops, m, m);
+    c.add("missing-alpha", few.len() as u64, env.ops - p_ops, m, m);
     let ops0 = env.ops;
-    c.add("opt-present", few.len() as u64, 0, p, p);
+    c.add("opt-present", if W::STRICT { few.len() as u64 } else { 0 }, p_ops, p, p);
     // permutations of the map form
     if !W::STRICT {
         return;
     }
     let x = W::build(&vals[0]);
     let Ok(Ok(toks)) = pv::catch(|| to_toks(&x, true)) else { return };
-    let Some((_, _, entries)) = struct_entries(&toks) else { return };
+    let Some((_, entries)) = top_entries(&toks) else { return };
     let names: Vec<&'static str> = entries.iter().map(|e| e.0).collect();
     if names.iter().filter(|n| **n == "alpha").count() != 1 {
+        // only happens when the serializer is broken (the shape check reports it): say that
+        // the permutation space could not be built rather than shrink silently
+        c.warn(format!("perm: {} does not serialize with exactly one `alpha` entry; its permutation space was not explored", W::name()));
         return;
     }
     let variants = perm_variants(&names);
@@ -808,7 +813,7 @@ pub fn check_foreign<P: Case + Clone>(c: &mut Collector, env: &mut Env, st: &mut
     let Got::Value(wire) = w else { return false };
     let mut want = p.bits();
     want.push(if tuple { a.pbits() } else { 1.0f32.pbits() });
-    let sig = |kind: &str| format!("C20/unsupported/Alpha<{}>/{}/{}/{}", P::shape(), if tuple { "tuple-input" } else { "bare-input" }, f.class(), kind);
+    let sig = |kind: &str| format!("C20/unsupported/Alpha<{}>/{}/{}/{}", P::class(), if tuple { "tuple-input" } else { "bare-input" }, f.class(), kind);
     let case = |obs: Value| json!({"sub": "unsupported", "item": format!("unsupported:{}", P::name()), "type": P::name(), "ix": ix, "fmt": f.name(), "tuple": tuple, "wire": wire.show(), "observed": obs, "expected": "an error, the documented unimplemented! panic, or the natural reading of the data"});
     match try_de::<palette::Alpha<P, f32>>(f, &wire) {
         Got::Value(y) => {
